@@ -138,8 +138,11 @@ func runC14(w *World, pi interface{}) {
 			waiting[k] = true // nothing sent at all: the server waits for the first envelope
 			continue
 		}
+		// (a byte stream only: over a websocket every message is complete in itself, and one that
+		// holds a truncated JSON value is undecodable input like any other)
+		streamed := peer.Kind == "tcp"
 		for _, e := range evs {
-			if e.Kind == "c-bytes" && e.Note == "half-frame" {
+			if streamed && e.Kind == "c-bytes" && e.Note == "half-frame" {
 				// after an incomplete frame whatever follows may still be one unfinished JSON value
 				waiting[k] = true
 			}
@@ -150,7 +153,7 @@ func runC14(w *World, pi interface{}) {
 			if st != "failed" && st != "finished" {
 				waiting[k] = true
 			}
-		} else if last.Kind == "c-bytes" && last.Note == "half-frame" {
+		} else if streamed && last.Kind == "c-bytes" && last.Note == "half-frame" {
 			waiting[k] = true // an incomplete frame is no input yet
 		}
 	}
